@@ -59,6 +59,11 @@ func (fr *Frame) applySpec(sp *FuncSpec, fn *ssa.Function, name string, args []V
 	na := u.c.Fresh("alloc", SInt)
 	u.c.Assume(Ge(na, st.alloc))
 	st.alloc = na
+	for _, cn := range comps {
+		if u.m.refKind[cn.Name] {
+			u.m.refAxiom(st.heap[cn.Name], st.alloc)
+		}
+	}
 	// results
 	var results []Value
 	n := sig.Results().Len()
